@@ -277,6 +277,8 @@ class VProc:
         self._nmods = -1
         self.block = None  # (fd, exclusive) while blocked in flock()
         self.locale = "utf-8"  # locale encoding of the current process
+        self.env = {}  # environment variables of the current process
+        self._env_saved = {}
 
     def det_bytes(self, n):
         self._rnd += 1
@@ -529,7 +531,22 @@ class Sim:
             raise KeyboardInterrupt()
 
     # -- context switching
+    @staticmethod
+    def _env_apply(vp):
+        vp._env_saved = {k: os.environ.get(k) for k in vp.env}
+        os.environ.update(vp.env)
+
+    @staticmethod
+    def _env_restore(vp):
+        for k, old in getattr(vp, "_env_saved", {}).items():
+            if old is None:
+                os.environ.pop(k, None)
+            else:
+                os.environ[k] = old
+        vp._env_saved = {}
+
     def _save_ctx(self, vp):
+        self._env_restore(vp)
         mods = sys.modules
         if len(mods) != vp._nmods:
             names = [k for k in mods if k == "evo" or k.startswith("evo.")]
@@ -546,6 +563,7 @@ class Sim:
         sys.stdout = vp.out
         sys.stderr = vp.err
         self.evo_logger.handlers = vp.log_handlers
+        self._env_apply(vp)
 
     def switch_to(self, vp):
         if self.ctx is vp:
@@ -782,6 +800,11 @@ class Sim:
                 vp.results.append(res)
                 vp.answers = list(cmd.get("answers", ()))
                 vp.locale = cmd.get("locale") or "utf-8"
+                # environment variables of this process (an overlay on the
+                # harness' environment, swapped at every context switch)
+                self._env_restore(vp)
+                vp.env = dict(cmd.get("env") or {})
+                self._env_apply(vp)
                 if vp.locale != "utf-8":
                     self.probe("process_with_other_locale_encoding")
                 try:
